@@ -1,4 +1,6 @@
 import GaeaVerif.Lemmas.RouteLists
+import GaeaVerif.Lemmas.RouteCalendar
+import GaeaVerif.Gen.Consts
 /-
   C01 — Sharded reads are routed to every table that can hold a matching row.
   Theorems about `Model/Route.lean` (the tie to proxy/plan is `gvh run C01`).
@@ -523,5 +525,1015 @@ theorem equalStart_midperiod_unsound_witness :
     eval (fun _ => none) 120 (.cmp true false .lt lit) = some true ∧ ¬ ((120 : Int) / 100 ∈ [0]) := by
   simp [routeStmt, route, rangeRule, findTableIndexes, adjust, makeList, interList, eval, Cmp.holds,
     List.range, List.range.loop]
+
+/-! ### The same invariant relative to a set `V` of row values, for several joined tables -/
+
+/-- The sub table `i` under consideration is one of the rule's listed tables. -/
+structure TableOK (r : Rule) (i : Int) : Prop where
+  sorted : Sorted r.idxs
+  inIdxs : i ∈ r.idxs
+  firstLe : r.first ≤ i
+  leLast : i ≤ r.last
+
+theorem RowOK.table {r : Rule} {pv : Int → Int} {x : Int} (h : RowOK r pv x) : TableOK r (pv x) :=
+  ⟨h.sorted, h.inIdxs, h.firstLe, h.leLast⟩
+
+/-- `LitsOK` relative to the set `V` of values a row of the column can hold
+    (`LitsOK` is the case `V = everything`): monotone placement and the
+    `EqualStart` condition are only required of such values, and a placed
+    literal denotes one of them. -/
+structure LitsOKOn (V : Int → Prop) (r : Rule) (pv : Int → Int) (ls : List Lit) : Prop where
+  place_den : ∀ l ∈ ls, ∀ i, l.place = some i → ∃ v, l.rank = some v ∧ V v ∧ pv v = i
+  mono : r.isRange = true → ∀ a b : Int, V a → V b → a ≤ b → pv a ≤ pv b
+  eqStart : r.isRange = true → ∀ l ∈ ls, l.eqStart = true → ∀ i v, l.place = some i → l.rank = some v →
+      ∀ y : Int, V y → y < v → pv y < i
+
+theorem LitsOKOn.sub {V : Int → Prop} {r : Rule} {pv : Int → Int} {ls ls' : List Lit} (h : LitsOKOn V r pv ls)
+    (hs : ∀ l ∈ ls', l ∈ ls) : LitsOKOn V r pv ls' :=
+  ⟨fun l hl => h.place_den l (hs l hl), h.mono, fun hr l hl => h.eqStart hr l (hs l hl)⟩
+
+theorem LitsOK.on {r : Rule} {pv : Int → Int} {ls : List Lit} (h : LitsOK r pv ls) :
+    LitsOKOn (fun _ => True) r pv ls :=
+  ⟨fun l hl i hp => by obtain ⟨v, hv, hpv⟩ := h.place_den l hl i hp; exact ⟨v, hv, trivial, hpv⟩,
+   fun hr a b _ _ hab => h.mono hr a b hab,
+   fun hr l hl he i v hp hv y _ hy => h.eqStart hr l hl he i v hp hv y hy⟩
+
+theorem find_sorted (r : Rule) (i : Int) (ht : TableOK r i) (op : Cmp) (on : Bool) (l : Lit) (is : List Int)
+    (hf : findTableIndexes r op on l = some is) : Sorted is := by
+  unfold findTableIndexes at hf
+  cases on
+  · simp at hf; subst hf; exact ht.sorted
+  · simp only [Bool.not_true, Bool.false_eq_true, ↓reduceIte] at hf
+    cases op <;> simp only at hf
+    · cases hp : l.place with
+      | none => simp [hp] at hf
+      | some j => simp [hp] at hf; subst hf; simp [Sorted]
+    · simp at hf; subst hf; exact ht.sorted
+    all_goals
+      by_cases hr : r.isRange = true
+      case neg => simp [hr] at hf; subst hf; exact ht.sorted
+      simp only [hr, ↓reduceIte] at hf
+      cases hp : l.place with
+      | none => simp [hp] at hf
+      | some j => simp [hp] at hf; subst hf; exact makeList_sorted _ _
+
+/-- `cmp_sound` for a row value `x` of `V` stored in table `i`. -/
+theorem cmp_sound_on (V : Int → Prop) (r : Rule) (pv : Int → Int) (i x : Int) (op : Cmp) (l : Lit) (is : List Int)
+    (ht : TableOK r i) (hx : V x) (hpx : pv x = i) (hl : LitsOKOn V r pv [l])
+    (hf : findTableIndexes r op true l = some is) :
+    (∀ v, l.rank = some v → op.holds x v = true → i ∈ is) ∧ (l.rank = none → i ∈ is) := by
+  subst hpx
+  have hnone : l.rank = none → l.place = none := by
+    intro h
+    cases hp : l.place with
+    | none => rfl
+    | some j => obtain ⟨v, hv, _⟩ := hl.place_den l (by simp) j hp; rw [h] at hv; cases hv
+  refine ⟨?_, ?_⟩
+  case refine_2 =>
+    intro hrk
+    have hp := hnone hrk
+    unfold findTableIndexes at hf
+    cases op <;> simp [hp] at hf
+    all_goals first
+      | (subst hf; exact ht.inIdxs)
+      | (obtain ⟨_, hf⟩ := hf; subst hf; exact ht.inIdxs)
+  unfold findTableIndexes at hf
+  simp only [Bool.not_true, Bool.false_eq_true, ↓reduceIte] at hf
+  have all : ∀ v, l.rank = some v → op.holds x v = true → pv x ∈ r.idxs := fun _ _ _ => ht.inIdxs
+  cases op <;> simp only at hf
+  · cases hp : l.place with
+    | none => simp [hp] at hf
+    | some j =>
+      simp [hp] at hf; subst hf
+      intro v hv hxv
+      obtain ⟨v', hv', _, hpv⟩ := hl.place_den l (by simp) j hp
+      rw [hv] at hv'; cases hv'
+      simp [Cmp.holds] at hxv; subst hxv; simp [hpv]
+  · simp at hf; subst hf; exact all
+  all_goals
+    by_cases hr : r.isRange = true
+    case neg => simp [hr] at hf; subst hf; exact all
+    simp only [hr, ↓reduceIte] at hf
+    cases hp : l.place with
+    | none => simp [hp] at hf
+    | some j =>
+      simp [hp] at hf; subst hf
+      intro v hv hxv
+      obtain ⟨v', hv', hVv, hpv⟩ := hl.place_den l (by simp) j hp
+      rw [hv] at hv'; cases hv'
+      rw [makeList_mem]
+      have hm := hl.mono hr
+      have hfst := ht.firstLe
+      have hlst := ht.leLast
+      simp [Cmp.holds] at hxv
+      first
+        | (have := hm x v hx hVv (by omega); unfold adjust; split
+           · rename_i he; have := hl.eqStart hr l (by simp) he j v hp hv x hx (by omega); omega
+           · omega)
+        | (have := hm x v hx hVv (by omega); omega)
+        | (have := hm v x hVv hx (by omega); omega)
+
+theorem allPlaces_ranks_on (V : Int → Prop) (r : Rule) (pv : Int → Int) (ls : List Lit) (ps : List Int)
+    (hl : LitsOKOn V r pv ls) (h : allPlaces ls = some ps) :
+    ∃ vs, allRanks ls = some vs ∧ ps = vs.map pv := by
+  induction ls generalizing ps with
+  | nil => simp [allPlaces] at h; subst h; exact ⟨[], rfl, rfl⟩
+  | cons l ls ih =>
+    simp only [allPlaces] at h
+    cases hp : l.place with
+    | none => simp [hp] at h
+    | some i =>
+      cases hq : allPlaces ls with
+      | none => simp [hp, hq] at h
+      | some is =>
+        simp [hp, hq] at h; subst h
+        obtain ⟨vs, hvs, his⟩ := ih is (hl.sub (fun l hl => by simp [hl])) hq
+        obtain ⟨v, hv, _, hpv⟩ := hl.place_den l (by simp) i hp
+        exact ⟨v :: vs, by simp [allRanks, hv, hvs], by simp [hpv, his]⟩
+
+theorem shardBetween_sorted (r : Rule) (i : Int) (ht : TableOK r i) (neg : Bool) (lo hi : Lit) (is : List Int)
+    (hf : shardBetween r neg lo hi = some is) : Sorted is := by
+  unfold shardBetween at hf
+  cases hs : lo.place with
+  | none => simp [hs] at hf
+  | some s =>
+    cases he : hi.place with
+    | none => simp [hs, he] at hf
+    | some e =>
+      simp only [hs, he] at hf
+      cases neg
+      · simp only [Bool.false_eq_true, ↓reduceIte] at hf
+        split at hf <;> (simp at hf; subst hf; exact makeList_sorted _ _)
+      · simp only [↓reduceIte] at hf
+        split at hf
+        · simp at hf; subst hf; exact ht.sorted
+        · simp at hf; subst hf; exact unionList_sorted _ _ (makeList_sorted _ _) (makeList_sorted _ _)
+
+theorem between_sound_on (V : Int → Prop) (r : Rule) (pv : Int → Int) (i x : Int) (neg : Bool) (lo hi : Lit)
+    (is : List Int) (ht : TableOK r i) (hx : V x) (hpx : pv x = i) (hl : LitsOKOn V r pv [lo, hi])
+    (hr : r.isRange = true) (hf : shardBetween r neg lo hi = some is) :
+    ∃ a b, lo.rank = some a ∧ hi.rank = some b ∧
+      (((decide (a ≤ x) && decide (x ≤ b)) != neg) = true → i ∈ is) := by
+  subst hpx
+  unfold shardBetween at hf
+  cases hs : lo.place with
+  | none => simp [hs] at hf
+  | some s =>
+    cases he : hi.place with
+    | none => simp [hs, he] at hf
+    | some e =>
+      simp only [hs, he] at hf
+      obtain ⟨a', ha', hVa, hpa⟩ := hl.place_den lo (by simp) s hs
+      obtain ⟨b', hb', hVb, hpb⟩ := hl.place_den hi (by simp) e he
+      refine ⟨a', b', ha', hb', ?_⟩
+      have hm := hl.mono hr
+      have hfst := ht.firstLe
+      have hlst := ht.leLast
+      cases neg
+      · simp only [Bool.false_eq_true, ↓reduceIte] at hf
+        split at hf <;> (simp at hf; subst hf)
+        all_goals
+          intro hxab
+          simp at hxab
+          have h1 := hm a' x hVa hx hxab.1
+          have h2 := hm x b' hx hVb hxab.2
+          rw [makeList_mem]; omega
+      · simp only [↓reduceIte] at hf
+        split at hf
+        · simp at hf; subst hf; exact fun _ => ht.inIdxs
+        · simp at hf; subst hf
+          intro hxab
+          rw [unionList_mem, makeList_mem, makeList_mem]
+          simp at hxab
+          rcases hxab with hxab | hxab
+          · left
+            have := hm x a' hx hVa (by omega)
+            unfold adjust; split
+            · rename_i heq
+              have := hl.eqStart hr lo (by simp) heq s a' hs ha' x hx hxab; omega
+            · omega
+          · right
+            have := hm b' x hVb hx (by omega); omega
+
+/-- every row of the joined tables that is present holds a value of `V` and is stored in sub table `i` -/
+def ValsOK (V : Int → Prop) (pv : Int → Int) (i : Int) (vals : Nat → Option Int) : Prop :=
+  ∀ t v, vals t = some v → V v ∧ pv v = i
+
+/-- Invariant of `handleComparisonExpr` on a condition of a multi-table
+    statement: a reported routing result is an ascending list that contains
+    `i` whenever the condition is TRUE on a combined row stored in the sub
+    tables number `i`. -/
+theorem jroute_inv (V : Int → Prop) (r : Rule) (pv : Int → Int) (i : Int) (env : JCond → Option Bool)
+    (vals : Nat → Option Int) (ht : TableOK r i) (hv : ValsOK V pv i vals)
+    (c : JCond) (hl : LitsOKOn V r pv (jShardLits c))
+    (l : List Int) (h : route r c.erase = some (true, l)) :
+    Sorted l ∧ (evalJ env vals c = some true → i ∈ l) := by
+  induction c generalizing l with
+  | paren a ih => simp only [JCond.erase, route, evalJ, jShardLits] at h hl ⊢; exact ih hl l h
+  | other id => simp [JCond.erase, route] at h
+  | and a b iha ihb =>
+    simp only [JCond.erase, route] at h
+    have hla : LitsOKOn V r pv (jShardLits a) := hl.sub (fun l h => by simp [jShardLits, h])
+    have hlb : LitsOKOn V r pv (jShardLits b) := hl.sub (fun l h => by simp [jShardLits, h])
+    cases ha : route r a.erase with
+    | none => simp [ha] at h
+    | some ra =>
+      cases hb : route r b.erase with
+      | none => simp [ha, hb] at h
+      | some rb =>
+        obtain ⟨lh, ll⟩ := ra
+        obtain ⟨rh, rl⟩ := rb
+        simp only [ha, hb, Option.some.injEq] at h
+        simp only [evalJ]
+        cases lh <;> cases rh <;> simp [mergeAnd] at h
+        · subst h
+          have := ihb hlb _ hb
+          exact ⟨this.1, fun he => this.2 (and3_true he).2⟩
+        · subst h
+          have := iha hla _ ha
+          exact ⟨this.1, fun he => this.2 (and3_true he).1⟩
+        · subst h
+          have h1 := iha hla _ ha
+          have h2 := ihb hlb _ hb
+          refine ⟨interList_sorted _ _ h1.1 h2.1, fun he => ?_⟩
+          rw [interList_mem _ _ h1.1 h2.1]
+          exact ⟨h1.2 (and3_true he).1, h2.2 (and3_true he).2⟩
+  | or a b iha ihb =>
+    simp only [JCond.erase, route] at h
+    have hla : LitsOKOn V r pv (jShardLits a) := hl.sub (fun l h => by simp [jShardLits, h])
+    have hlb : LitsOKOn V r pv (jShardLits b) := hl.sub (fun l h => by simp [jShardLits, h])
+    cases ha : route r a.erase with
+    | none => simp [ha] at h
+    | some ra =>
+      cases hb : route r b.erase with
+      | none => simp [ha, hb] at h
+      | some rb =>
+        obtain ⟨lh, ll⟩ := ra
+        obtain ⟨rh, rl⟩ := rb
+        simp only [ha, hb, Option.some.injEq] at h
+        simp only [evalJ]
+        cases lh <;> cases rh <;> simp [mergeOr] at h
+        subst h
+        have h1 := iha hla _ ha
+        have h2 := ihb hlb _ hb
+        refine ⟨unionList_sorted _ _ h1.1 h2.1, fun he => ?_⟩
+        rw [unionList_mem]
+        rcases or3_true he with he | he
+        · exact Or.inl (h1.2 he)
+        · exact Or.inr (h2.2 he)
+  | cmp col litLeft op lit =>
+    cases col with
+    | free => simp [JCond.erase, route] at h
+    | ambiguous => simp [JCond.erase, route] at h
+    | col t =>
+      simp only [JCond.erase, route] at h
+      by_cases hg : r.isGlobal = true
+      · simp [hg] at h
+      · simp [hg, findTableIndexes] at h; subst h
+        exact ⟨ht.sorted, fun _ => ht.inIdxs⟩
+    | key t =>
+      simp only [JCond.erase, route] at h
+      by_cases hg : r.isGlobal = true
+      · simp [hg] at h
+      · simp only [hg, Bool.false_eq_true, ↓reduceIte, Option.map_eq_some_iff, Prod.mk.injEq, true_and] at h
+        obtain ⟨is, hf, rfl⟩ := h
+        refine ⟨find_sorted r i ht _ true lit is hf, ?_⟩
+        simp only [evalJ]
+        cases hx : vals t with
+        | none => simp
+        | some x =>
+          obtain ⟨hVx, hpx⟩ := hv t x hx
+          have hl' : LitsOKOn V r pv [lit] := hl.sub (fun l h => by simpa [jShardLits] using h)
+          have := cmp_sound_on V r pv i x _ lit is ht hVx hpx hl' hf
+          simp only
+          cases hrk : lit.rank with
+          | none => intro _; exact this.2 hrk
+          | some v =>
+            simp only [Option.some.injEq]
+            intro hxv
+            apply this.1 v hrk
+            cases litLeft
+            · simpa using hxv
+            · simp only [↓reduceIte] at hxv ⊢; rw [inverse_holds]; exact hxv
+  | inList col neg ls =>
+    cases col with
+    | free => simp [JCond.erase, route] at h
+    | ambiguous => simp [JCond.erase, route] at h
+    | col t =>
+      simp [JCond.erase, route] at h; subst h
+      exact ⟨ht.sorted, fun _ => ht.inIdxs⟩
+    | key t =>
+      simp only [JCond.erase, route] at h
+      by_cases hc : (r.isGlobal || neg || !true) = true
+      · simp only [hc, ↓reduceIte, Option.some.injEq, Prod.mk.injEq, true_and] at h
+        subst h; exact ⟨ht.sorted, fun _ => ht.inIdxs⟩
+      · simp only [hc, Bool.false_eq_true, ↓reduceIte, Option.map_eq_some_iff, Prod.mk.injEq, true_and] at h
+        obtain ⟨ps, hps, rfl⟩ := h
+        simp only [Bool.or_eq_true, Bool.not_true, Bool.or_false, not_or, Bool.not_eq_true] at hc
+        obtain ⟨_, hneg⟩ := hc
+        subst hneg
+        have hl' : LitsOKOn V r pv ls := hl.sub (fun l h => by simpa [jShardLits] using h)
+        obtain ⟨vs, hvs, rfl⟩ := allPlaces_ranks_on V r pv ls ps hl' hps
+        refine ⟨sortDedup_sorted _, ?_⟩
+        simp only [evalJ]
+        cases hx : vals t with
+        | none => simp
+        | some x =>
+          obtain ⟨_, hpx⟩ := hv t x hx
+          simp only [hvs, Option.some.injEq, Bool.bne_false]
+          intro hxm
+          rw [sortDedup_mem, List.mem_map]
+          exact ⟨x, by simpa using hxm, hpx⟩
+  | between col neg lo hi =>
+    cases col with
+    | free => simp [JCond.erase, route] at h
+    | ambiguous => simp [JCond.erase, route] at h
+    | col t =>
+      simp [JCond.erase, route] at h; subst h
+      exact ⟨ht.sorted, fun _ => ht.inIdxs⟩
+    | key t =>
+      simp only [JCond.erase, route] at h
+      by_cases hc : (r.isGlobal || !true || !r.isRange) = true
+      · simp only [hc, ↓reduceIte, Option.some.injEq, Prod.mk.injEq, true_and] at h
+        subst h; exact ⟨ht.sorted, fun _ => ht.inIdxs⟩
+      · simp only [hc, Bool.false_eq_true, ↓reduceIte, Option.map_eq_some_iff, Prod.mk.injEq, true_and] at h
+        obtain ⟨is, hf, rfl⟩ := h
+        simp only [Bool.or_eq_true, Bool.not_true, Bool.or_false, not_or, Bool.not_eq_true,
+          Bool.not_eq_eq_eq_not] at hc
+        obtain ⟨_, hr⟩ := hc
+        refine ⟨shardBetween_sorted r i ht neg lo hi is hf, ?_⟩
+        simp only [evalJ]
+        cases hx : vals t with
+        | none => simp
+        | some x =>
+          obtain ⟨hVx, hpx⟩ := hv t x hx
+          have hl' : LitsOKOn V r pv [lo, hi] := hl.sub (fun l h => by simpa [jShardLits] using h)
+          obtain ⟨a, b, ha, hb, hab⟩ := between_sound_on V r pv i x neg lo hi is ht hVx hpx hl' (by simpa using hr) hf
+          simp only [ha, hb, Option.some.injEq]
+          exact hab
+
+theorem joinsLits_cons (j : JoinStep) (rest : List JoinStep) :
+    joinsLits (j :: rest) = optLits j.on ++ joinsLits rest := by
+  unfold joinsLits; rw [List.flatMap_cons]
+
+/-- `handleJoinTree`: starting from a sorted list that contains `i`, the result
+    is sorted, unchanged when the tree does not restrict, and still contains `i`
+    when the combined row is a row of the joined table. -/
+theorem routeJoins_sound (V : Int → Prop) (r : Rule) (pv : Int → Int) (i : Int) (env : JCond → Option Bool)
+    (vals : Nat → Option Int) (ht : TableOK r i) (hv : ValsOK V pv i vals) (joins : List JoinStep)
+    (hl : LitsOKOn V r pv (joinsLits joins)) (restricts : Bool) (acc acc' : List Int)
+    (h : routeJoins r acc joins restricts = some acc') (hs : Sorted acc) :
+    Sorted acc' ∧ (restricts = false → acc' = acc) ∧
+      (i ∈ acc → inJoin env vals joins → i ∈ acc') := by
+  induction joins generalizing restricts acc' with
+  | nil => simp [routeJoins] at h; subst h; exact ⟨hs, fun _ => rfl, fun hi _ => hi⟩
+  | cons j rest ih =>
+    rw [joinsLits_cons] at hl
+    have hlr : LitsOKOn V r pv (joinsLits rest) := hl.sub (fun l h => by simp [h])
+    simp only [routeJoins] at h
+    by_cases hu : j.usingQualified = true
+    · simp [hu] at h
+    · simp only [hu, Bool.false_eq_true, ↓reduceIte] at h
+      cases h1 : routeJoins r acc rest (restricts && j.tp != .right) with
+      | none => simp [h1] at h
+      | some acc1 =>
+        simp only [h1] at h
+        obtain ⟨s1, hfalse1, hmem1⟩ := ih hlr _ acc1 h1
+        -- membership of `i` in `acc1` for a row of the join
+        have hmem : i ∈ acc → inJoin env vals (j :: rest) → i ∈ acc1 := by
+          intro hi hin
+          cases htp : j.tp with
+          | inner => simp only [inJoin, htp] at hin; exact hmem1 hi hin.1
+          | left => simp only [inJoin, htp] at hin; exact hmem1 hi hin.1
+          | right =>
+            have : acc1 = acc := hfalse1 (by simp [htp])
+            rw [this]; exact hi
+        cases hon : j.on with
+        | none =>
+          simp only [hon, Option.some.injEq] at h; subst h
+          refine ⟨s1, ?_, hmem⟩
+          intro hr; exact hfalse1 (by simp [hr])
+        | some c =>
+          simp only [hon] at h
+          have hlc : LitsOKOn V r pv (jShardLits c) := hl.sub (fun l h => by simp [hon, optLits, h])
+          cases hrc : routeJ r c with
+          | none => simp [hrc] at h
+          | some res =>
+            obtain ⟨has, l⟩ := res
+            simp only [hrc, Option.some.injEq] at h
+            by_cases hcond : (has && (restricts && j.tp == .inner)) = true
+            · simp only [hcond, ↓reduceIte] at h; subst h
+              simp only [Bool.and_eq_true, beq_iff_eq] at hcond
+              obtain ⟨hhas, hres, htp⟩ := hcond
+              subst hhas
+              have hroute : route r c.erase = some (true, l) := by
+                unfold routeJ at hrc; split at hrc
+                · simp at hrc
+                · exact hrc
+              have hinv := jroute_inv V r pv i env vals ht hv c hlc l hroute
+              refine ⟨interList_sorted _ _ s1 hinv.1, ?_, ?_⟩
+              · intro hr; rw [hr] at hres; cases hres
+              · intro hi hin
+                rw [interList_mem _ _ s1 hinv.1]
+                refine ⟨hmem hi hin, hinv.2 ?_⟩
+                simp only [inJoin, htp] at hin
+                have := hin.2.2
+                simpa [onTrue, hon] using this
+            · simp only [hcond, Bool.false_eq_true, ↓reduceIte] at h; subst h
+              refine ⟨s1, ?_, hmem⟩
+              intro hr; exact hfalse1 (by simp [hr])
+
+/-- **C01 for joined tables (`JOIN … ON`).**  For a SELECT over a sharded table
+    and tables linked to it, joined by any left-deep sequence of inner, LEFT and
+    RIGHT joins with ON conditions and filtered by WHERE: if the statement is
+    accepted and routed to `is`, every combined row of the joined table (SQL
+    semantics `inJoin`, NULL extensions included) on which WHERE is TRUE and
+    whose present rows are stored in the sub tables number `i` has `i ∈ is`. -/
+theorem join_route_sound (V : Int → Prop) (r : Rule) (pv : Int → Int) (i : Int) (env : JCond → Option Bool)
+    (vals : Nat → Option Int) (ht : TableOK r i) (hv : ValsOK V pv i vals) (joins : List JoinStep)
+    (wh : Option JCond)
+    (hl : LitsOKOn V r pv (joinsLits joins ++ optLits wh))
+    (is : List Int) (h : routeJoinStmt r joins wh = some is)
+    (hin : inJoin env vals joins) (hwh : ∀ c, wh = some c → evalJ env vals c = some true) : i ∈ is := by
+  simp only [routeJoinStmt] at h
+  cases h1 : routeJoins r r.idxs joins true with
+  | none => simp [h1] at h
+  | some acc =>
+    simp only [h1] at h
+    have hlj : LitsOKOn V r pv (joinsLits joins) := hl.sub (fun l h => by simp [h])
+    obtain ⟨s1, _, hmem⟩ := routeJoins_sound V r pv i env vals ht hv joins hlj true r.idxs acc h1 ht.sorted
+    have hi := hmem ht.inIdxs hin
+    cases wh with
+    | none => simp at h; subst h; exact hi
+    | some c =>
+      simp only at h
+      have hlc : LitsOKOn V r pv (jShardLits c) := hl.sub (fun l h => by simp [optLits, h])
+      cases hrc : routeJ r c with
+      | none => simp [hrc] at h
+      | some res =>
+        obtain ⟨has, l⟩ := res
+        simp only [hrc, Option.some.injEq] at h
+        cases has with
+        | false => simp at h; subst h; exact hi
+        | true =>
+          simp only [↓reduceIte] at h; subst h
+          have hroute : route r c.erase = some (true, l) := by
+            unfold routeJ at hrc; split at hrc
+            · simp at hrc
+            · exact hrc
+          have hinv := jroute_inv V r pv i env vals ht hv c hlc l hroute
+          rw [interList_mem _ _ s1 hinv.1]
+          exact ⟨hi, hinv.2 (hwh c rfl)⟩
+
+/-! ### the single-table statement as a join of one table -/
+
+def toJ : Cond → JCond
+  | .paren a => .paren (toJ a)
+  | .other id => .other id
+  | .and a b => .and (toJ a) (toJ b)
+  | .or a b => .or (toJ a) (toJ b)
+  | .cmp on litLeft op l => .cmp (if on then .key 0 else .col 0) litLeft op l
+  | .inList on neg ls => .inList (if on then .key 0 else .col 0) neg ls
+  | .between on neg lo hi => .between (if on then .key 0 else .col 0) neg lo hi
+
+theorem erase_toJ (c : Cond) : (toJ c).erase = c := by
+  induction c with
+  | paren a ih => simp [toJ, JCond.erase, ih]
+  | other id => rfl
+  | and a b iha ihb => simp [toJ, JCond.erase, iha, ihb]
+  | or a b iha ihb => simp [toJ, JCond.erase, iha, ihb]
+  | cmp on litLeft op l => cases on <;> rfl
+  | inList on neg ls => cases on <;> rfl
+  | between on neg lo hi => cases on <;> rfl
+
+theorem hasAmbiguous_toJ (c : Cond) : (toJ c).hasAmbiguous = false := by
+  induction c with
+  | paren a ih => simp [toJ, JCond.hasAmbiguous, ih]
+  | other id => rfl
+  | and a b iha ihb => simp [toJ, JCond.hasAmbiguous, iha, ihb]
+  | or a b iha ihb => simp [toJ, JCond.hasAmbiguous, iha, ihb]
+  | cmp on litLeft op l => cases on <;> rfl
+  | inList on neg ls => cases on <;> rfl
+  | between on neg lo hi => cases on <;> rfl
+
+theorem jShardLits_toJ (c : Cond) : jShardLits (toJ c) = shardLits c := by
+  induction c with
+  | paren a ih => simp [toJ, jShardLits, shardLits, ih]
+  | other id => rfl
+  | and a b iha ihb => simp [toJ, jShardLits, shardLits, iha, ihb]
+  | or a b iha ihb => simp [toJ, jShardLits, shardLits, iha, ihb]
+  | cmp on litLeft op l => cases on <;> rfl
+  | inList on neg ls => cases on <;> rfl
+  | between on neg lo hi => cases on <;> rfl
+
+theorem evalJ_toJ (env : Cond → Option Bool) (x : Int) (c : Cond) :
+    evalJ (fun j => env j.erase) (fun _ => some x) (toJ c) = eval env x c := by
+  induction c with
+  | paren a ih => simp [toJ, evalJ, eval, ih]
+  | other id => rfl
+  | and a b iha ihb => simp [toJ, evalJ, eval, iha, ihb]
+  | or a b iha ihb => simp [toJ, evalJ, eval, iha, ihb]
+  | cmp on litLeft op l =>
+    cases on
+    · rfl
+    · simp only [toJ, evalJ, eval, ↓reduceIte, Bool.not_true, Bool.false_eq_true]
+      cases l.rank <;> rfl
+  | inList on neg ls =>
+    cases on
+    · rfl
+    · simp only [toJ, evalJ, eval, ↓reduceIte, Bool.not_true, Bool.false_eq_true]
+      cases allRanks ls <;> rfl
+  | between on neg lo hi =>
+    cases on
+    · rfl
+    · simp only [toJ, evalJ, eval, ↓reduceIte, Bool.not_true, Bool.false_eq_true]
+      cases lo.rank <;> cases hi.rank <;> rfl
+
+theorem routeJoinStmt_single (r : Rule) (c : Cond) : routeJoinStmt r [] (some (toJ c)) = routeStmt r (some c) := by
+  simp [routeJoinStmt, routeJoins, routeJ, hasAmbiguous_toJ, erase_toJ, routeStmt]
+
+/-- **`route_sound` relative to the values `V` a row can hold** (`route_sound`
+    is the case `V = everything`): the form the calendar rules need, where
+    placement is monotone only on real dates. -/
+theorem route_sound_on (V : Int → Prop) (r : Rule) (pv : Int → Int) (x : Int) (env : Cond → Option Bool)
+    (c : Cond) (hrow : RowOK r pv x) (hx : V x) (hl : LitsOKOn V r pv (shardLits c))
+    (is : List Int) (h : routeStmt r (some c) = some is)
+    (htrue : eval env x c = some true) : pv x ∈ is := by
+  rw [← routeJoinStmt_single] at h
+  refine join_route_sound V r pv (pv x) (fun j => env j.erase) (fun _ => some x) hrow.table
+    (fun t v hv => by cases hv; exact ⟨hx, rfl⟩) [] (some (toJ c)) ?_ is h (by simp [inJoin]) ?_
+  · simpa [joinsLits, optLits, jShardLits_toJ] using hl
+  · intro c' hc'; cases hc'; rw [evalJ_toJ]; exact htrue
+
+
+open GaeaVerif.ShardGo GaeaVerif.RouteCal
+
+/-! ### Calendar rules (date_year, date_month, date_day): the hypotheses of
+    `route_sound_on` discharged from the placement model of C09 and the model of
+    the repaired `EqualStart` -/
+
+/-- the rule of a calendar table whose configured periods are `idxs`
+    (`GetFirstTableIndex` / `GetLastTableIndex` are its first and last entry) -/
+def calRule (idxs : List Int) : Rule :=
+  { idxs := idxs, first := idxs.headD 0, last := idxs.getLastD 0, isRange := true, isGlobal := false }
+
+theorem sorted_bounds (l : List Int) (hs : Sorted l) (i : Int) (hi : i ∈ l) : l.headD 0 ≤ i ∧ i ≤ l.getLastD 0 := by
+  induction l with
+  | nil => simp at hi
+  | cons a as ih =>
+    rw [Sorted, List.pairwise_cons] at hs
+    simp only [List.headD_cons]
+    rcases List.mem_cons.mp hi with rfl | hi'
+    · refine ⟨Int.le_refl _, ?_⟩
+      cases as with
+      | nil => simp
+      | cons b bs =>
+        have hb : (b :: bs).getLastD 0 ∈ (b :: bs) := by
+          rw [List.getLastD_eq_getLast?]; simp
+          cases h : (b :: bs).getLast? with
+          | none => simp at h
+          | some z => simpa using List.mem_of_getLast? h
+        have := hs.1 _ hb
+        simp only [List.getLastD_cons] at *
+        omega
+    · have h2 := ih hs.2 hi'
+      have := hs.1 i hi'
+      cases as with
+      | nil => simp at hi'
+      | cons b bs =>
+        simp only [List.getLastD_cons] at *
+        omega
+
+
+theorem calRule_tableOK (idxs : List Int) (hs : Sorted idxs) (i : Int) (hi : i ∈ idxs) : TableOK (calRule idxs) i :=
+  ⟨hs, hi, (sorted_bounds idxs hs i hi).1, (sorted_bounds idxs hs i hi).2⟩
+
+/-- The literal the planner sees for a sharding value `key` of a calendar rule:
+    what `FindTableIndex(key)` and `EqualStart(key, index)` answer
+    (Model/ShardPlace.lean, Model/ShardStart.lean), with the value `rank` it denotes. -/
+def calLit (k : CalKind) (civilOf : Int → ShardPlace.Civil) (clockOf : Int → ShardPlace.Clock) (rank : Option Int)
+    (key : ShardPlace.Key) : Lit :=
+  match k.find civilOf key with
+  | .ok i => { rank := rank, place := some i, eqStart := k.equalStart civilOf clockOf key i == .ok true }
+  | _ => { rank := rank, place := none, eqStart := false }
+
+/-- a string literal compared with a DATETIME sharding column: it denotes the
+    date-time `CalendarSpec.parseSpelling` reads ('YYYY-MM-DD' is midnight) -/
+def strLit (k : CalKind) (civilOf : Int → ShardPlace.Civil) (clockOf : Int → ShardPlace.Clock) (s : GoStr) : Lit :=
+  calLit k civilOf clockOf ((CalendarSpec.parseSpelling s).map pack) (.str s)
+
+/-- an integer literal compared with an integer (unix timestamp) sharding column -/
+def unixLit (k : CalKind) (civilOf : Int → ShardPlace.Civil) (clockOf : Int → ShardPlace.Clock) (v : Int) : Lit :=
+  calLit k civilOf clockOf (some v) (.int64 v)
+
+theorem div_pos (k : CalKind) : 0 < k.div := by cases k <;> decide
+
+/-- **Well-formedness of the calendar rules for string keys**, for every list of
+    accepted spellings: monotone placement, a placed literal denotes a valid
+    date-time stored where it is placed, `EqualStart` only at the first instant
+    of the period. -/
+theorem str_litsOK (k : CalKind) (idxs : List Int) (civilOf : Int → ShardPlace.Civil)
+    (clockOf : Int → ShardPlace.Clock) (ss : List GoStr)
+    (hss : ∀ s ∈ ss, (CalendarSpec.parseSpelling s).isSome = true) :
+    LitsOKOn VStr (calRule idxs) (pvStr k) (ss.map (strLit k civilOf clockOf)) := by
+  refine ⟨?_, ?_, ?_⟩
+  · intro l hl i hp
+    simp only [List.mem_map] at hl
+    obtain ⟨s, hs, rfl⟩ := hl
+    obtain ⟨c, hc⟩ := Option.isSome_iff_exists.mp (hss s hs)
+    have hsp := spelled_of_parse s c hc
+    have hf := str_place k civilOf s c hsp
+    simp only [strLit, calLit, hf, hc, Option.map_some] at hp ⊢
+    cases hp
+    exact ⟨pack c, rfl, ⟨c, hsp.valid, rfl⟩, rfl⟩
+  · intro _ a b _ _ hab
+    exact Int.ediv_le_ediv (div_pos k) hab
+  · intro _ l hl he i v hp hv y hy hlt
+    simp only [List.mem_map] at hl
+    obtain ⟨s, hs, rfl⟩ := hl
+    obtain ⟨c, hc⟩ := Option.isSome_iff_exists.mp (hss s hs)
+    have hsp := spelled_of_parse s c hc
+    have hf := str_place k civilOf s c hsp
+    simp only [strLit, calLit, hf, hc, Option.map_some] at hp hv he
+    cases hp; cases hv
+    have he' : k.equalStart civilOf clockOf (.str s) (pvStr k (pack c)) = .ok true := by simpa using he
+    exact str_start k civilOf clockOf s c hsp _ he' y hy hlt
+
+/-- **Well-formedness of the calendar rules for unix-timestamp keys** in a zone that satisfies `ZoneOK`. -/
+theorem unix_litsOK (k : CalKind) (idxs : List Int) (civilOf : Int → ShardPlace.Civil)
+    (clockOf : Int → ShardPlace.Clock) (hz : ZoneOK civilOf clockOf) (vs : List Int)
+    (hvs : ∀ v ∈ vs, VUnix civilOf v) :
+    LitsOKOn (VUnix civilOf) (calRule idxs) (pvUnix k civilOf) (vs.map (unixLit k civilOf clockOf)) := by
+  refine ⟨?_, ?_, ?_⟩
+  · intro l hl i hp
+    simp only [List.mem_map] at hl
+    obtain ⟨v, hv, rfl⟩ := hl
+    have hf := unix_place k civilOf clockOf hz v (hvs v hv)
+    simp only [unixLit, calLit, hf] at hp ⊢
+    cases hp
+    exact ⟨v, rfl, hvs v hv, rfl⟩
+  · intro _ a b _ _ hab
+    exact unix_mono k civilOf clockOf hz a b hab
+  · intro _ l hl he i w hp hw y _ hlt
+    simp only [List.mem_map] at hl
+    obtain ⟨v, hv, rfl⟩ := hl
+    have hf := unix_place k civilOf clockOf hz v (hvs v hv)
+    simp only [unixLit, calLit, hf] at hp hw he
+    cases hp
+    have hvw : v = w := by simpa using hw
+    subst hvw
+    have he' : k.equalStart civilOf clockOf (.int64 v) (pvUnix k civilOf v) = .ok true := by simpa using he
+    exact unix_start k civilOf clockOf hz v _ (hvs v hv) he' y hlt
+
+/-- every literal compared with the sharding column is an accepted spelling of a date-time -/
+def StrCond (k : CalKind) (civilOf : Int → ShardPlace.Civil) (clockOf : Int → ShardPlace.Clock) (c : Cond) : Prop :=
+  ∃ ss : List GoStr, (∀ s ∈ ss, (CalendarSpec.parseSpelling s).isSome = true) ∧
+    shardLits c = ss.map (strLit k civilOf clockOf)
+
+/-- every literal compared with the sharding column is a timestamp of a year 0 … 9999 -/
+def UnixCond (k : CalKind) (civilOf : Int → ShardPlace.Civil) (clockOf : Int → ShardPlace.Clock) (c : Cond) : Prop :=
+  ∃ vs : List Int, (∀ v ∈ vs, VUnix civilOf v) ∧ shardLits c = vs.map (unixLit k civilOf clockOf)
+
+/-- **C01 for calendar rules, DATETIME column, no residual hypothesis.**  For a
+    `date_year` / `date_month` / `date_day` rule with any ascending list of
+    configured periods, every row whose sharding column holds the valid
+    date-time `x` and lives in a configured table, and every accepted statement
+    whose sharding-column literals are accepted spellings ('YYYY-MM-DD',
+    'YYYY-MM-DD hh:mm:ss'): if WHERE is TRUE on the row, the table `YYYY` /
+    `YYYYMM` / `YYYYMMDD` of the row is routed.  (String keys do not consult the
+    time zone: `civilOf`, `clockOf` are arbitrary.) -/
+theorem calendar_route_sound_str (k : CalKind) (idxs : List Int) (hs : Sorted idxs)
+    (civilOf : Int → ShardPlace.Civil) (clockOf : Int → ShardPlace.Clock)
+    (x : CalendarSpec.DateTime) (hx : x.valid = true)
+    (hrow : k.num { year := x.year, month := x.month, day := x.day } ∈ idxs)
+    (env : Cond → Option Bool) (c : Cond) (hc : StrCond k civilOf clockOf c) (is : List Int)
+    (h : routeStmt (calRule idxs) (some c) = some is) (htrue : eval env (pack x) c = some true) :
+    k.num { year := x.year, month := x.month, day := x.day } ∈ is := by
+  obtain ⟨ss, hss, hlits⟩ := hc
+  rw [← pack_num k x hx] at hrow ⊢
+  have ht := calRule_tableOK idxs hs _ hrow
+  exact route_sound_on VStr (calRule idxs) (pvStr k) (pack x) env c
+    ⟨ht.sorted, ht.inIdxs, ht.firstLe, ht.leLast⟩ ⟨x, hx, rfl⟩
+    (hlits ▸ str_litsOK k idxs civilOf clockOf ss hss) is h htrue
+
+/-- **C01 for calendar rules, integer (unix timestamp) column**, in any zone
+    satisfying `ZoneOK`. -/
+theorem calendar_route_sound_unix (k : CalKind) (idxs : List Int) (hs : Sorted idxs)
+    (civilOf : Int → ShardPlace.Civil) (clockOf : Int → ShardPlace.Clock) (hz : ZoneOK civilOf clockOf)
+    (x : Int) (hx : VUnix civilOf x) (hrow : k.num (civilOf x) ∈ idxs)
+    (env : Cond → Option Bool) (c : Cond) (hc : UnixCond k civilOf clockOf c) (is : List Int)
+    (h : routeStmt (calRule idxs) (some c) = some is) (htrue : eval env x c = some true) :
+    k.num (civilOf x) ∈ is := by
+  obtain ⟨vs, hvs, hlits⟩ := hc
+  have ht := calRule_tableOK idxs hs _ hrow
+  exact route_sound_on (VUnix civilOf) (calRule idxs) (pvUnix k civilOf) x env c
+    ⟨ht.sorted, ht.inIdxs, ht.firstLe, ht.leLast⟩ hx
+    (hlits ▸ unix_litsOK k idxs civilOf clockOf hz vs hvs) is h htrue
+
+/-- **C01 for calendar rules (`calendar_route_sound`).**  The only parameter
+    left is the time zone of C09, here its offset `off` (`civilOfUnix off`,
+    `clockOfUnix off`: `time.Unix(v, 0)` in a zone `off` seconds east of UTC):
+    for all three rules, every ascending period list, both column types and
+    both key spellings, an accepted statement whose WHERE is TRUE on a row is
+    routed to the table of that row. -/
+theorem calendar_route_sound (k : CalKind) (idxs : List Int) (hs : Sorted idxs) (off : Int) :
+    (∀ (x : CalendarSpec.DateTime), x.valid = true →
+      k.num { year := x.year, month := x.month, day := x.day } ∈ idxs →
+      ∀ (env : Cond → Option Bool) (c : Cond),
+        StrCond k (ShardPlace.civilOfUnix off) (ShardPlace.clockOfUnix off) c → ∀ is : List Int,
+        routeStmt (calRule idxs) (some c) = some is → eval env (pack x) c = some true →
+        k.num { year := x.year, month := x.month, day := x.day } ∈ is) ∧
+    (∀ (x : Int), VUnix (ShardPlace.civilOfUnix off) x → k.num (ShardPlace.civilOfUnix off x) ∈ idxs →
+      ∀ (env : Cond → Option Bool) (c : Cond),
+        UnixCond k (ShardPlace.civilOfUnix off) (ShardPlace.clockOfUnix off) c → ∀ is : List Int,
+        routeStmt (calRule idxs) (some c) = some is → eval env x c = some true →
+        k.num (ShardPlace.civilOfUnix off x) ∈ is) :=
+  ⟨fun x hx hrow env c hc is h ht =>
+      calendar_route_sound_str k idxs hs _ _ x hx hrow env c hc is h ht,
+   fun x hx hrow env c hc is h ht =>
+      calendar_route_sound_unix k idxs hs _ _ (fixedZone_ok off) x hx hrow env c hc is h ht⟩
+
+
+/-! #### the joined form for calendar rules -/
+
+/-- **C01 for calendar rules, joined tables, DATETIME columns.**  The present
+    rows of the combined row hold valid date-times of the same period `i`. -/
+theorem calendar_join_route_sound_str (k : CalKind) (idxs : List Int) (hs : Sorted idxs)
+    (civilOf : Int → ShardPlace.Civil) (clockOf : Int → ShardPlace.Clock)
+    (i : Int) (hi : i ∈ idxs) (vals : Nat → Option Int) (hv : ValsOK VStr (pvStr k) i vals)
+    (env : JCond → Option Bool) (joins : List JoinStep) (wh : Option JCond)
+    (hc : ∃ ss : List GoStr, (∀ s ∈ ss, (CalendarSpec.parseSpelling s).isSome = true) ∧
+      joinsLits joins ++ optLits wh = ss.map (strLit k civilOf clockOf))
+    (is : List Int) (h : routeJoinStmt (calRule idxs) joins wh = some is)
+    (hin : inJoin env vals joins) (hwh : ∀ c, wh = some c → evalJ env vals c = some true) : i ∈ is := by
+  obtain ⟨ss, hss, hlits⟩ := hc
+  exact join_route_sound VStr (calRule idxs) (pvStr k) i env vals (calRule_tableOK idxs hs i hi) hv joins wh
+    (hlits ▸ str_litsOK k idxs civilOf clockOf ss hss) is h hin hwh
+
+/-- **C01 for calendar rules, joined tables, unix-timestamp columns**, zone with fixed offset `off`. -/
+theorem calendar_join_route_sound_unix (k : CalKind) (idxs : List Int) (hs : Sorted idxs) (off : Int)
+    (i : Int) (hi : i ∈ idxs) (vals : Nat → Option Int)
+    (hv : ValsOK (VUnix (ShardPlace.civilOfUnix off)) (pvUnix k (ShardPlace.civilOfUnix off)) i vals)
+    (env : JCond → Option Bool) (joins : List JoinStep) (wh : Option JCond)
+    (hc : ∃ vs : List Int, (∀ v ∈ vs, VUnix (ShardPlace.civilOfUnix off) v) ∧
+      joinsLits joins ++ optLits wh = vs.map (unixLit k (ShardPlace.civilOfUnix off) (ShardPlace.clockOfUnix off)))
+    (is : List Int) (h : routeJoinStmt (calRule idxs) joins wh = some is)
+    (hin : inJoin env vals joins) (hwh : ∀ c, wh = some c → evalJ env vals c = some true) : i ∈ is := by
+  obtain ⟨vs, hvs, hlits⟩ := hc
+  exact join_route_sound _ (calRule idxs) _ i env vals (calRule_tableOK idxs hs i hi) hv joins wh
+    (hlits ▸ unix_litsOK k idxs _ _ (fixedZone_ok off) vs hvs) is h hin hwh
+
+/-! #### non-vacuity of the calendar instances -/
+
+/-- `k < '2017-06-01'` on a date_year table with periods 2016, 2017: both tables
+    are routed (the pinned code routed 2016 only), and the row
+    '2017-03-05 10:00:00' on which the condition is TRUE lives in table 2017. -/
+example :
+    strLit .year (ShardPlace.civilOfUnix 0) (ShardPlace.clockOfUnix 0) (ascii "2017-06-01") =
+      { rank := some 20170601000000, place := some 2017, eqStart := false } := by decide
+
+example :
+    let c := Cond.cmp true false .lt { rank := some 20170601000000, place := some 2017, eqStart := false }
+    routeStmt (calRule [2016, 2017]) (some c) = some [2016, 2017] ∧
+    eval (fun _ => none) (pack { year := 2017, month := 3, day := 5, hour := 10 }) c = some true := by
+  simp [routeStmt, route, calRule, findTableIndexes, adjust, makeList, interList, eval, Cmp.holds, pack,
+    List.range, List.range.loop]
+
+/-- `k < '2017-01-01 00:00:00'`: the first instant of 2017, table 2017 is skipped. -/
+example :
+    strLit .year (ShardPlace.civilOfUnix 0) (ShardPlace.clockOfUnix 0) (ascii "2017-01-01 00:00:00") =
+      { rank := some 20170101000000, place := some 2017, eqStart := true } := by decide
+
+example :
+    routeStmt (calRule [2016, 2017])
+      (some (.cmp true false .lt { rank := some 20170101000000, place := some 2017, eqStart := true })) =
+      some [2016] := by
+  simp [routeStmt, route, calRule, findTableIndexes, adjust, makeList, interList, List.range, List.range.loop]
+
+/-- the timestamp 1483228800 is 2017-01-01 00:00:00 UTC but 08:00:00 in UTC+8:
+    `EqualStart` depends on the zone, as the theorem's parameter says. -/
+example :
+    unixLit .month (ShardPlace.civilOfUnix 0) (ShardPlace.clockOfUnix 0) 1483228800 =
+      { rank := some 1483228800, place := some 201701, eqStart := true } ∧
+    unixLit .month (ShardPlace.civilOfUnix 28800) (ShardPlace.clockOfUnix 28800) 1483228800 =
+      { rank := some 1483228800, place := some 201701, eqStart := false } := by
+  decide
+
+/-! ### hash, mod and the Mycat rules: any placement function -/
+
+/-- the table a placement function `find` (any `Shard.FindForKey`: `HashShard`,
+    `ModShard`, the `MycatPartition…Shard`s of C08) gives the integer key `v`;
+    rows whose key it rejects are stored nowhere -/
+def pvFind (find : ShardPlace.Key → ShardPlace.Out Int) (v : Int) : Int :=
+  match find (.int64 v) with
+  | .ok i => i
+  | _ => -1
+
+/-- an integer literal compared with the sharding column of such a table
+    (these shards do not implement `RangeShard`: no `EqualStart`) -/
+def findLit (find : ShardPlace.Key → ShardPlace.Out Int) (v : Int) : Lit :=
+  { rank := some v
+    place := match find (.int64 v) with | .ok i => some i | _ => none
+    eqStart := false }
+
+def hashRule (idxs : List Int) : Rule :=
+  { idxs := idxs, first := idxs.headD 0, last := idxs.getLastD 0, isRange := false, isGlobal := false }
+
+theorem find_litsOK (find : ShardPlace.Key → ShardPlace.Out Int) (idxs : List Int) (vs : List Int) :
+    LitsOK (hashRule idxs) (pvFind find) (vs.map (findLit find)) := by
+  apply hashlike_litsOK _ _ rfl
+  intro l hl i hp
+  simp only [List.mem_map] at hl
+  obtain ⟨v, _, rfl⟩ := hl
+  refine ⟨v, rfl, ?_⟩
+  simp only [findLit, pvFind] at hp ⊢
+  cases hf : find (.int64 v) with
+  | ok j => simp [hf] at hp; simpa using hp
+  | err k => simp [hf] at hp
+  | panic => simp [hf] at hp
+
+/-- **C01 for hash-like rules, no residual hypothesis**: for every placement
+    function — in particular `Shard.FindForKey` of the four Mycat shards of C08
+    (`mycat_rules_route_sound`) — and every ascending sub-table list, an accepted
+    statement whose WHERE is TRUE on a row with key `x` stored in a listed table
+    is routed to that table. -/
+theorem hashlike_route_sound (find : ShardPlace.Key → ShardPlace.Out Int) (idxs : List Int) (hs : Sorted idxs)
+    (x : Int) (hrow : pvFind find x ∈ idxs) (env : Cond → Option Bool) (c : Cond)
+    (hc : ∃ vs : List Int, shardLits c = vs.map (findLit find)) (is : List Int)
+    (h : routeStmt (hashRule idxs) (some c) = some is) (htrue : eval env x c = some true) :
+    pvFind find x ∈ is := by
+  obtain ⟨vs, hvs⟩ := hc
+  have hb := sorted_bounds idxs hs _ hrow
+  exact route_sound (hashRule idxs) (pvFind find) x env c ⟨hs, hrow, hb.1, hb.2⟩
+    (hvs ▸ find_litsOK find idxs vs) is h htrue
+
+/-- the instance for the Mycat shards of C08 (`mycat_mod`, `mycat_long`,
+    `mycat_string`, `mycat_murmur`), placed by the functions C08 proves equal to Mycat's -/
+theorem mycat_rules_route_sound (civilOf : Int → ShardPlace.Civil) (sh : ShardPlace.Shard)
+    (idxs : List Int) (hs : Sorted idxs)
+    (x : Int) (hrow : pvFind (sh.FindForKey civilOf) x ∈ idxs) (env : Cond → Option Bool) (c : Cond)
+    (hc : ∃ vs : List Int, shardLits c = vs.map (findLit (sh.FindForKey civilOf))) (is : List Int)
+    (h : routeStmt (hashRule idxs) (some c) = some is) (htrue : eval env x c = some true) :
+    pvFind (sh.FindForKey civilOf) x ∈ is :=
+  hashlike_route_sound _ idxs hs x hrow env c hc is h htrue
+
+/-- `k = 7 OR k IN (1, 2)` under mycat_mod with 4 databases: tables 1, 2, 3. -/
+example :
+    let f := ShardPlace.MycatPartitionModShard.FindForKey 4
+    findLit f 7 = { rank := some 7, place := some 3, eqStart := false } ∧
+    findLit f 1 = { rank := some 1, place := some 1, eqStart := false } ∧
+    findLit f 2 = { rank := some 2, place := some 2, eqStart := false } ∧ pvFind f 7 = 3 := by
+  decide
+
+example :
+    let c := Cond.or (.cmp true false .eq { rank := some 7, place := some 3, eqStart := false })
+      (.inList true false [{ rank := some 1, place := some 1, eqStart := false },
+        { rank := some 2, place := some 2, eqStart := false }])
+    routeStmt (hashRule [0, 1, 2, 3]) (some c) = some [1, 2, 3] := by
+  simp [routeStmt, route, hashRule, findTableIndexes, allPlaces, sortDedup, insertUniq, mergeOr, interList,
+    unionList]
+
+/-! ### non-vacuity of the joined form, and the repaired defect as a witness -/
+
+/-- `t JOIN c ON t.k = c.k AND c.k >= 250 WHERE t.k < 350` on 4 tables of 100
+    rows: routed to tables 2 and 3; the pair of rows (310, 310) is in the join. -/
+example :
+    let on := JCond.and (.other 0) (.cmp (.key 1) false .ge (rangeLit 100 4 250))
+    let wh := JCond.cmp (.key 0) false .lt (rangeLit 100 4 350)
+    let joins := [{ tp := .inner, usingQualified := false, on := some on : JoinStep }]
+    let vals : Nat → Option Int := fun _ => some 310
+    routeJoinStmt (rangeRule 4) joins (some wh) = some [2, 3] ∧
+    inJoin (fun _ => some true) vals joins ∧ evalJ (fun _ => some true) vals wh = some true := by
+  simp [routeJoinStmt, routeJoins, routeJ, JCond.hasAmbiguous, JCond.erase, route, rangeRule, rangeLit,
+    findTableIndexes, adjust, mergeAnd, makeList, interList, inJoin, onTrue, evalJ, and3, Cmp.holds,
+    List.range, List.range.loop]
+
+/-- **The defect repaired by the LEFT/RIGHT JOIN fix, on the model.**
+    `t LEFT JOIN c ON t.k = 150`: the ON condition is routed to table 1, but
+    the row with key 50 (NULL-extended, no partner) is a row of the joined
+    table and lives in table 0; the repaired code routes the statement to all
+    four tables, intersecting with the ON route — as the pinned code did —
+    would have dropped it. -/
+theorem outer_join_on_prune_unsound_witness :
+    let on := JCond.cmp (.key 0) false .eq (rangeLit 100 4 150)
+    let joins := [{ tp := .left, usingQualified := false, on := some on : JoinStep }]
+    let vals : Nat → Option Int := fun t => if t = 0 then some 50 else none
+    routeJ (rangeRule 4) on = some (true, [1]) ∧
+    routeJoinStmt (rangeRule 4) joins none = some [0, 1, 2, 3] ∧
+    inJoin (fun _ => none) vals joins ∧ ¬ ((50 : Int) / 100 ∈ interList (rangeRule 4).idxs [1]) := by
+  simp [routeJoinStmt, routeJoins, routeJ, JCond.hasAmbiguous, JCond.erase, route, rangeRule, rangeLit,
+    findTableIndexes, makeList, interList, inJoin, List.range, List.range.loop]
+
+/-! ### The operator dispatch of the source, read by the translator, is the model's -/
+
+/-- the model's `findTableIndexes` is its dispatch table run -/
+theorem findTableIndexes_eq_action (r : Rule) (op : Cmp) (l : Lit) :
+    findTableIndexes r op true l = op.findAction.run r l := by
+  cases op <;> simp [findTableIndexes, Cmp.findAction, FindAction.run, adjust]
+
+/-- **Translator tie, `getFindTableIndexesFunc`.**  For each of the six
+    comparison operators the statements the source executes for the sharding
+    column (extracted with go/ast on every run) are the ones the model's table
+    `Cmp.findAction` stands for; the default case and the guard for other
+    columns return all sub tables. -/
+theorem find_dispatch_tied :
+    Gen.c01FindDispatch = Cmp.all.map (fun op => (op.goName, op.findAction.trace)) ∧
+    Gen.c01FindDefault = FindAction.all.trace ∧
+    Gen.c01FindOtherColumn = ["rule.GetShardingColumn() != columnName", "return rule.GetSubTableIndexes(), nil"] ∧
+    Gen.c01AdjustShardIndex = ["if s.EqualStart(value, index) {", "return index - 1", "}", "return index"] := by
+  decide
+
+/-- **Translator tie, `inverseOperator`.** -/
+theorem inverse_tied (op : Cmp) :
+    (match Gen.c01InverseOperator.lookup op.goName with
+     | some n => n
+     | none => if Gen.c01InverseDefault = "op" then op.goName else "?") = op.inverse.goName := by
+  cases op <;> decide
+
+/-- **Translator tie, `mergeBinaryOperationRouteResult`.**  Running the
+    `if … { return … }` lists of the source (conditions translated into Lean by
+    the translator) gives the model's `mergeAnd` / `mergeOr` for all inputs. -/
+theorem merge_tied :
+    ∃ dsAnd dsOr dflt, readDecisions Gen.c01MergeAnd = some dsAnd ∧ readDecisions Gen.c01MergeOr = some dsOr ∧
+      MergeRet.ofCode Gen.c01MergeEnd.2 = some dflt ∧
+      ∀ (lHas rHas : Bool) (l r : List Int),
+        mergeAnd (lHas, l) (rHas, r) =
+          ((runDecisions dsAnd (Gen.c01MergeEnd.1, dflt) lHas rHas).1,
+           (runDecisions dsAnd (Gen.c01MergeEnd.1, dflt) lHas rHas).2.run l r) ∧
+        mergeOr (lHas, l) (rHas, r) =
+          ((runDecisions dsOr (Gen.c01MergeEnd.1, dflt) lHas rHas).1,
+           (runDecisions dsOr (Gen.c01MergeEnd.1, dflt) lHas rHas).2.run l r) := by
+  refine ⟨_, _, _, rfl, rfl, rfl, ?_⟩
+  intro lHas rHas l r
+  cases lHas <;> cases rHas <;> exact ⟨rfl, rfl⟩
+
+/-- **Translator tie, `handleJoinTree` / `rewriteOnCondition`.**  The Boolean
+    expressions of the source that decide whether an ON condition prunes are
+    the ones of `routeJoins`. -/
+theorem join_prune_tied (restricts has : Bool) (tp : JoinTp) :
+    Gen.c01JoinLeftRestricts restricts tp.goName = (restricts && tp != .right) ∧
+    Gen.c01OnInter has (Gen.c01JoinOnPrunes restricts tp.goName) = (has && (restricts && tp == .inner)) := by
+  cases restricts <;> cases has <;> cases tp <;> decide
+
+/-- `route_inv` relative to `V` (from the invariant of the joined form). -/
+theorem route_inv_on (V : Int → Prop) (r : Rule) (pv : Int → Int) (x : Int) (env : Cond → Option Bool)
+    (hrow : RowOK r pv x) (hx : V x) (c : Cond) (hl : LitsOKOn V r pv (shardLits c))
+    (l : List Int) (h : route r c = some (true, l)) :
+    Sorted l ∧ (eval env x c = some true → pv x ∈ l) := by
+  have := jroute_inv V r pv (pv x) (fun j => env j.erase) (fun _ => some x) hrow.table
+    (fun t v hv => by cases hv; exact ⟨hx, rfl⟩) (toJ c) (by rw [jShardLits_toJ]; exact hl) l
+    (by rw [erase_toJ]; exact h)
+  rw [evalJ_toJ] at this
+  exact this
+
+theorem sorted_append (a b : List Int) (ha : Sorted a) (hb : Sorted b)
+    (h : ∀ x y, a.getLast? = some x → b.head? = some y → x < y) : Sorted (a ++ b) := by
+  rw [Sorted, List.pairwise_append]
+  refine ⟨ha, hb, ?_⟩
+  intro x hx y hy
+  cases b with
+  | nil => simp at hy
+  | cons b0 bs =>
+    have hlast : ∃ z, a.getLast? = some z := by
+      cases h' : a.getLast? with
+      | none => rw [List.getLast?_eq_none_iff] at h'; subst h'; simp at hx
+      | some z => exact ⟨z, rfl⟩
+    obtain ⟨z, hz⟩ := hlast
+    have h1 := h z b0 hz rfl
+    have hxz : x ≤ z := by
+      have hzmem := List.mem_of_getLast? hz
+      obtain ⟨pre, rfl⟩ : ∃ pre, a = pre ++ [z] := by
+        refine ⟨a.dropLast, ?_⟩
+        have hne : a ≠ [] := by intro e; subst e; simp at hz
+        rw [List.getLast?_eq_some_getLast hne] at hz
+        cases hz
+        exact (List.dropLast_concat_getLast hne).symm
+      rw [Sorted, List.pairwise_append] at ha
+      simp at hx
+      rcases hx with hx | rfl
+      · exact Int.le_of_lt (ha.2.2 x hx z (by simp))
+      · exact Int.le_refl _
+    rw [Sorted, List.pairwise_cons] at hb
+    rcases List.mem_cons.mp hy with rfl | hy'
+    · omega
+    · have := hb.1 y hy'; omega
+
+/-- **The sub-table list of an accepted calendar configuration is ascending**:
+    C09's `slice_infos_concat` shows it is the concatenation of the entries'
+    period lists, accepted only if they are ascending across entries
+    (`C09.AscChain`); with every entry ascending in itself the whole list is —
+    the hypothesis `Sorted idxs` of `calendar_route_sound`. -/
+theorem config_sorted (acc : List Int) (lists : List (List Int)) (hacc : Sorted acc)
+    (h : C09.AscChain acc lists) (hs : ∀ l ∈ lists, Sorted l) : Sorted (acc ++ lists.flatten) := by
+  induction lists generalizing acc with
+  | nil => simpa using hacc
+  | cons l rest ih =>
+    simp only [C09.AscChain] at h
+    have hal : Sorted (acc ++ l) := sorted_append acc l hacc (hs l (by simp)) (fun x y hx hy => h.2.1 x y hx hy)
+    have := ih (acc ++ l) hal h.2.2 (fun l' hl' => hs l' (by simp [hl']))
+    simpa [List.flatten_cons, List.append_assoc] using this
+
+example : Sorted ([] ++ [[201511, 201512], [201601], [201602, 201603]].flatten) :=
+  config_sorted [] _ (by simp [Sorted]) (by simp [C09.AscChain]) (by simp [Sorted])
 
 end GaeaVerif.C01
